@@ -341,6 +341,9 @@ def analyse(case, obs):
                 if still:
                     bad(t, f"stopService Deferred {i} fired while {sorted(still)} (connection / attempt alive when "
                            f"stop was requested) is still open", "stop-fired-open")
+            if e[0] == "A" and not (name in ("start", "adv") or (name == "drop" and any(x[0] == "S" for x in g))):
+                bad(t, "a connection attempt was started without start / the retry timer / a restart completing "
+                       "(a lost or failed connection must wait for the retry delay)", "attempt-without-delay")
             if len(open_) + len(pending) > 1:
                 bad(t, f"more than one open connection or attempt in progress: open={open_} attempts={pending}",
                     "two-connections")
